@@ -69,6 +69,9 @@ Definition wr_code (x : svar) : Z :=
 Definition acq_code (l : lk) : Z := match l with WLock => 4 | VLock => 8 | MLock => 18 end.
 Definition rel_code (l : lk) : Z := match l with WLock => 7 | VLock => 11 | MLock => 21 end.
 
+Definition cond_code (c : cond) : Z :=
+  match c with CNone => 1 | CSome => 2 | CMiss => 3 | CTrue => 4 | CFalse => 5 | CFresh => 6 end.
+
 Fixpoint walk (t : sk) (p : pst) : pst :=
   match t with
   | Skip => p
@@ -96,7 +99,9 @@ Fixpoint walk (t : sk) (p : pst) : pst :=
       match orc p with
       | [] => emit (-1) p               (* path description too short *)
       | b :: r =>
-          let p1 := {| evs := evs p; stop := stop p; orc := r; pub_attr := pub_attr p; pub_sort := pub_sort p; nupd := nupd p; boom := boom p; exn := exn p |} in
+          (* the kind of the test is part of the path (codes >= 100 are not shared accesses; they keep
+             two skeletons that test different things, or leave differently, apart) *)
+          let p1 := {| evs := (100 + cond_code c) :: evs p; stop := stop p; orc := r; pub_attr := pub_attr p; pub_sort := pub_sort p; nupd := nupd p; boom := boom p; exn := exn p |} in
           if b then walk body p1 else p1
       end
   | With l body =>                      (* the lock is released however the block is left *)
@@ -108,7 +113,8 @@ Fixpoint walk (t : sk) (p : pst) : pst :=
       let p3 := walk fin (set_stop false p2) in
       set_stop (stop p2 || stop p3) p3
   | Loop body => walk body p            (* one iteration *)
-  | Ret | Raise => set_stop true p
+  | Ret => set_stop true (emit 200 p)
+  | Raise => set_stop true (emit 201 p)
   end.
 
 (** ---- what the model does: the access codes thread [t] performs under a schedule *)
@@ -239,8 +245,28 @@ Fixpoint walk_calls (n : nat) (t : sk) (p : pst) : pst :=
       | _ => walk_calls n' t p2
       end
   end.
-Definition paths_of (t : sk) (raises : bool) (branches : list bool) : list Z :=
+(** everything the walk sees: shared accesses, kinds of the tests met, exits *)
+Definition raw_paths_of (t : sk) (raises : bool) (branches : list bool) : list Z :=
   rev (evs (walk_calls 8 t {| evs := []; stop := false; orc := branches; pub_attr := false; pub_sort := false; nupd := 0; boom := raises; exn := false |})).
+(** the shared accesses only (what the model's step function can be compared with) *)
+Definition paths_of (t : sk) (raises : bool) (branches : list bool) : list Z :=
+  filter (fun c => c <? 100) (raw_paths_of t raises branches).
+
+(** ---- two skeletons are the same program as far as shared state goes: for EVERY choice of
+    branches (up to 6 tests met, each taken or not) and whether or not validate() raises, they perform
+    the same shared accesses, meet tests of the same kinds and leave in the same way, in the same
+    order.  What is not compared: statements on objects that are still private to the thread (the
+    attribute dictionary before it is stored in the cache, the item list before it is stored, the
+    memoised function's own work) and how a lock-protected region is spelled (with-statement or
+    acquire / try / finally / release). *)
+Fixpoint all_bools (n : nat) : list (list bool) :=
+  match n with
+  | O => [[]]
+  | S n' => [] :: flat_map (fun l => [true :: l; false :: l]) (all_bools n')
+  end.
+Definition sk_equiv (a b : sk) : bool :=
+  forallb (fun bs => list_eqb Z.eqb (raw_paths_of a false bs) (raw_paths_of b false bs) &&
+                     list_eqb Z.eqb (raw_paths_of a true bs) (raw_paths_of b true bs)) (all_bools 6).
 
 Definition path_ok (pre : bool) (v : variant) (t : sk) (c : list req * list Z * Z * list bool) : bool :=
   let '(rs, sched, th, bs) := c in
